@@ -148,13 +148,15 @@ def name_pool(rng, style):
         return lambda kind, i: {"in": f"IN{i}", "w": f"N_{i}", "inst": f"U{i}", "bb": f"X{i}"}[kind]
     if style == "under":
         return lambda kind, i: {"in": f"_a{i}", "w": f"w_{i}_", "inst": f"_g{i}", "bb": f"bb_{i}"}[kind]
+    if style == "dollar":
+        return lambda kind, i: {"in": f"i${i}", "w": f"n{i}$", "inst": f"g{i}", "bb": f"u{i}"}[kind]
     raise ValueError(style)
 
 
 def gen_netlist(rng, mode="full", max_stmts=10, max_inputs=5, depth=4, lookalike=0.0, escaped=0.0, nbb=None, stats=None, neg=None):
     """mode: 'full' (C02) or 'fast' (the fast parser's documented subset, C14)."""
     fast = mode == "fast"
-    style = rng.choice(["plain", "plain", "caps"] + ([] if fast else ["under"]))
+    style = rng.choice(["plain", "plain", "caps"] + ([] if fast else ["under", "dollar"]))
     nm = name_pool(rng, style)
     ni = rng.randint(1, max_inputs)
     inputs = [nm("in", i) for i in range(ni)]
